@@ -75,6 +75,8 @@ RULE = ("predicate streams on dyadic grids incl. exact boundary hits (regions x 
         "restraint; distinct = full input description")
 
 EPS = fractions.Fraction(1, 10 ** 9)
+CRASH_TYPES = ("IndexError", "KeyError", "TypeError", "AttributeError", "UnboundLocalError", "NameError",
+               "ZeroDivisionError", "AssertionError", "RecursionError")
 
 
 # ------------------------------------------------------------------------------------------ helpers
@@ -1505,6 +1507,13 @@ def run_e2e(ctx, cases, timeout=None):
             ctx.case(None, flavour=case["flavour"], build=status)
             if status.startswith("error") and not cap.get("error", "").startswith("Sampling the end-to-end"):
                 ctx.tally(build_error=cap.get("error", "")[:80])
+                # an infeasible restraint mix is refused with IOError / ValueError (counted, not judged); an
+                # IndexError / KeyError / TypeError / ... on a valid build file is the program breaking on its own
+                # bookkeeping: no residue of that system satisfies anything
+                if status.split(":", 1)[-1] in CRASH_TYPES:
+                    ctx.oracle_fail("build_crashed", "gen_coords raised %s (%s) on a valid system with flavour %s: no "
+                                    "restrained residue is generated" % (status.split(":", 1)[-1], cap.get("error", "")[:120],
+                                                                         case["flavour"]), case)
             # the build did not finish (no residue positions to judge), the sampled distances are still judged
             rq, judges = ee_requests(cap)
             if rq:
